@@ -118,9 +118,27 @@ pub fn so_name(data: &[u8]) {
     guarded("C02", || check_name(data));
 }
 
-/// Generic E4 entry: the byte string is the random stream of proptest's pass-through RNG, so
-/// libFuzzer's coverage feedback steers the *same generators and oracles* the proptest
-/// sub-checks use.  Property and sub-check come from VERIF_FUZZ_PROP / VERIF_FUZZ_SUB.
+/// Sub-checks whose case type is total - every decodable value is a valid input because the
+/// interpreter reduces selectors itself - and which the generic target may therefore drive
+/// (audited with `vcheck bytede-audit`: no alarm, no harness panic on the unchanged tree).
+pub const GENERIC_SUBS: &[(&str, &str)] = &[
+    ("C01", "dso-stream"),
+    ("C02", "dso-direct"),
+    ("C02", "arena-hostile-elf"),
+    ("C06", "pure-geometry"),
+    ("C09", "dirsection-history"),
+    ("C12", "pure-sanitize"),
+    ("C14", "kit-images"),
+    ("C15", "generated-lists"),
+    ("C16", "history"),
+    ("C17", "strategies"),
+    ("C20", "pure-scan"),
+];
+
+/// Generic E4 entry: the fuzz bytes are decoded structure-aware (vcore::bytede) into the case
+/// type of a proptest sub-check and judged by that sub-check's oracle, so libFuzzer's coverage
+/// feedback steers the *same oracles*.  Property and sub-check come from VERIF_FUZZ_PROP /
+/// VERIF_FUZZ_SUB.
 pub fn generic_verdict(prop: &str, sub: &str, data: &[u8]) -> Option<(serde_json::Value, Verdict)> {
     let mut ctx = LaneCtx::for_fuzz(prop, sub, data, KnownFindings::default());
     crate::props::run(prop, &mut ctx);
@@ -131,7 +149,9 @@ pub fn generic(data: &[u8]) {
     use std::sync::OnceLock;
     static SEL: OnceLock<(String, String)> = OnceLock::new();
     let (prop, sub) = SEL.get_or_init(|| {
-        (std::env::var("VERIF_FUZZ_PROP").expect("VERIF_FUZZ_PROP"), std::env::var("VERIF_FUZZ_SUB").expect("VERIF_FUZZ_SUB"))
+        let sel = (std::env::var("VERIF_FUZZ_PROP").expect("VERIF_FUZZ_PROP"), std::env::var("VERIF_FUZZ_SUB").expect("VERIF_FUZZ_SUB"));
+        assert!(GENERIC_SUBS.iter().any(|(p, s)| *p == sel.0 && *s == sel.1), "sub-check {sel:?} is not audited for the generic target");
+        sel
     });
     if let Some((_, v)) = generic_verdict(prop, sub, data) {
         judge(prop, v);
